@@ -285,6 +285,7 @@ pub fn gen_plan(property: &str, seed: u64, index: u64, tier: Tier) -> Plan {
             let bare = start.piece_count() <= 4;
             // real rayon pool size for this run's counts (1 = the harness's global one-thread pool)
             knobs.insert("pool".into(), *rng.pick(&[1i64, 1, 2, 3, 4, 5, 6, 7, 8, 9, 12, 16]));
+            knobs.insert("node_budget".into(), if thorough { 12_000_000 } else { 1_500_000 });
             let maxd: usize = match (thorough, crowded, sparse) {
                 (false, _, true) if bare => 5,
                 (true, _, true) if bare => 6,
@@ -670,10 +671,25 @@ pub fn exec(plan: &Plan) -> Outcome {
                 if cur.in_check(cur.stm) {
                     stats.bump("probe/count-on-position-in-check");
                 }
+                // bounded cost: the depth is lowered until the reference count fits the node budget
+                let budget: u64 = plan.knob("node_budget", 1_500_000) as u64;
                 let mut want: u64 = 0;
+                let mut d_eff: u8 = 0;
                 for k in 1..=(*d as u32 + 1) {
-                    want += cur.perft(k);
+                    let level = cur.perft(k);
+                    if k > 1 && want + level > budget {
+                        stats.bump("count-depth-lowered-to-fit-node-budget");
+                        break;
+                    }
+                    want += level;
+                    d_eff = (k - 1) as u8;
+                    // the next level is roughly `level * branching`; stop early if it cannot fit
+                    if k <= *d as u32 && level.saturating_mul(level / cur.perft(k - 1).max(1)) > budget * 4 {
+                        stats.bump("count-depth-lowered-to-fit-node-budget");
+                        break;
+                    }
                 }
+                let d = &d_eff;
                 stats.add("reference-perft-leaves", want);
                 let pool_size = plan.knob("pool", 1) as usize;
                 let mut count = |board: &mut Board, gen: &mut MoveGenerator| -> u64 {
